@@ -37,6 +37,7 @@ SHARED = {
     "opt_vec_opt": "opt(vec(opt(u8)))", "opt_tup_opt": "opt(tup(opt(u8),u8))", "opt_map_opt": "opt(map(u8,opt(str)))",
     "vec_opt_vec_opt": "vec(opt(vec(opt(bool))))",
     "tup_u8_opt": "tup(u8,opt(u8))", "tup_opt_opt": "tup(opt(u8),opt(str))", "tup1_opt": "tup(opt(i64))", "vec_tup_opt": "vec(tup(u8,opt(i8)))",
+    "wdeque_u16": "vec(u16)", "wdeque_str": "vec(str)", "tup_wdeque": "tup(vec(u8),u8)",
     "tup_unit_last": "tup(u8,unit)", "tup_nested_opt": "tup(u8,tup(u8,opt(bool)))", "map_tup_opt": "map(u8,tup(bool,opt(u16)))",
 }
 
